@@ -444,6 +444,9 @@ func (m *Machine) callVx(fn *ssa.Function, a []Value) Value {
 	case "vxWalkExtra":
 		m.Env.WalkExtra = append(m.Env.WalkExtra, a[0])
 		return nil
+	case "vxWalkExtraKind":
+		m.Env.WalkExtraKind = a[0]
+		return nil
 	case "vxClockSymbolic":
 		m.Env.ClockSym = m.DecideV(a[0])
 		return nil
